@@ -84,6 +84,8 @@ val delete_segments :
 
 val bg_enabled : cfg -> db -> bool
 
+val flush_mid : bool -> cfg -> oracle -> db -> (name * tstate) list res
+
 val flush : bool -> cfg -> oracle -> db -> db res
 
 val insert_seg :
